@@ -413,7 +413,11 @@ def read_sensornet_files_routine_v3(
         else:
             # Use the fiber indices from the forward channel
             n_indices_internal_left = fiber_0_index - fiber_start_index
-            n_indices_internal_right = np.max([0, fiber_end_index - fiber_1_index])
+            # the mirrored sample of the first kept location is read at
+            # `fiber_end_index`, which therefore has to be a valid index
+            n_indices_internal_right = np.max(
+                [0, np.min([fiber_end_index, xraw.size - 1]) - fiber_1_index]
+            )
             n_indices_internal_shortest = np.min(
                 [n_indices_internal_left, n_indices_internal_right]
             )
